@@ -11,7 +11,8 @@ Rules (whitelist, fail-closed; nothing is guessed or repaired):
   * a local `x = e` is inlined into what follows (so renaming a local or introducing a temporary
     does not change the term);
   * `if c: <returns a>` followed by the rest r is `WIf c a r`; `a if c else b` likewise;
-  * `try: <body> except ValueError: raise ValueError("msg")` is `WTryValueError body msg`;
+  * `try: <body> except ValueError: raise ValueError("msg")` is `WTryValueError body ""` (the message
+    text is not part of the term);
   * `if g: x[idx] = np.nan` on a local x re-binds x to `WSetNan x idx g`;
   * `raise Exc(...)` is `WRaise "Exc"` (the message is not part of the term);
   * expressions: constants, names (parameters / comprehension variables -> WVar, module-level names
@@ -307,7 +308,8 @@ class _W(object):
             msg = s.handlers[0].body[0].exc.args[0].value
             if not all(32 <= ord(ch) < 127 for ch in msg):
                 _un("non-ASCII message", s)
-            return ("WTryValueError", self.body(s.body, env), msg)
+            # the message text is not part of the term (no property speaks about it)
+            return ("WTryValueError", self.body(s.body, env), "")
         _un("statement outside the sub-language", s)
 
     def returns(self, stmts):
